@@ -265,6 +265,7 @@ pub fn do_converge(w: &mut World) {
             + (w.truth.len() > w.nodes[n].model.length) as u64;
         let budget = 3 * missing0 + 10;
         let mut rounds = 0u64;
+        let mut gave_up = false;
         loop {
             let behind = w.truth.len() > w.nodes[n].model.length;
             let next = wanted.iter().copied().find(|i| !w.nodes[n].model.has(*i));
@@ -287,12 +288,15 @@ pub fn do_converge(w: &mut World) {
             // (u64::MAX>>8) % behind + 1 is some partial length; force full by block beyond or explicit
             let before = w.viols.len();
             repl::do_sync(w, n, &req);
-            if w.viols.len() > before || w.aborted.is_some() {
+            // only replication failures end the attempt (other judges' clauses are not ours)
+            let failed = w.viols[before..].iter().any(|v| v.clause.starts_with("C03."));
+            if failed || w.aborted.is_some() {
+                gave_up = true;
                 break;
             }
         }
         w.stats.probe("converged_replicas");
-        if w.aborted.is_none() && w.nodes[n].core.is_some() {
+        if w.aborted.is_none() && w.nodes[n].core.is_some() && !gave_up {
             w.scan_and_judge_as(n, "after convergence", "C03");
             // complete: every block the writer still holds
             for i in &wanted {
